@@ -607,6 +607,29 @@ func c12Special(quick bool) []c12Prog {
 		b.WriteString("x = 3\n")
 		out = append(out, c12Prog{Gen: "special", Shape: "relative-jump>65535", Leaf: h.name, Src: b.String(), Run: true})
 	}
+	// long chains of jumps followed by code that needs more stack than anything before it: the
+	// declared stack size has to cover what comes after the 1000th, 2000th ... jump target too
+	{
+		deep := "x = k(" + strings.Repeat("x, ", 24) + "x)\n"
+		for _, n := range []int{999, 1000, 1001, 1200, 2500} {
+			chains := []struct{ name, src string }{
+				{"if", strings.Repeat("if x:\n x = x\n", n)},
+				{"if-else", strings.Repeat("if x:\n x = x\nelse:\n x = 0\n", n)},
+				{"elif", "if x:\n x = x\n" + strings.Repeat("elif x:\n x = x\n", n)},
+				{"and", "x = " + strings.Repeat("x and ", n) + "x\n"},
+				{"ternary", strings.Repeat("x = x if x else 0\n", n)},
+				{"while", strings.Repeat("while x:\n x = 0\n", n)},
+				{"try", strings.Repeat("try:\n x = x\nexcept E:\n x = 0\n", n)},
+			}
+			for _, ch := range chains {
+				if quick && n != 1001 && n != 1200 {
+					continue
+				}
+				out = append(out, c12Prog{Gen: "special", Shape: "jump-chain-" + ch.name, Leaf: itoa(n), Src: "x = 1\n" + ch.src + deep, Run: true})
+				out = append(out, c12Prog{Gen: "special", Shape: "jump-chain-in-def-" + ch.name, Leaf: itoa(n), Src: "def f(x):\n" + indentLines(ch.src+deep, " ") + " return x\nf(1)\n", Run: true})
+			}
+		}
+	}
 	// the 16-bit operand boundary: a loop header (the target of the backward absolute jump of
 	// `while` and of `continue`) and a forward jump target at every byte offset from 0xFFFF-9 to
 	// 0xFFFF+9 (an operand of exactly 0xFFFF is the last one that fits without EXTENDED_ARG)
@@ -665,4 +688,14 @@ func c12Special(quick bool) []c12Prog {
 		out = append(out, c12Prog{Gen: "special", Shape: "wide", Leaf: "operands", Src: b.String(), Run: true})
 	}
 	return out
+}
+
+func indentLines(src, ind string) string {
+	var b strings.Builder
+	for _, l := range strings.SplitAfter(src, "\n") {
+		if l != "" {
+			b.WriteString(ind + l)
+		}
+	}
+	return b.String()
 }
